@@ -9,6 +9,10 @@ checks, na = [], []
 for p in props:
     pid = p["id"]
     path = os.path.join(HERE, "harness", "ekw", "props", pid.lower() + ".py")
+    accepted = open(os.path.join(HERE, "tools", "accepted.txt")).read().split()
+    if pid not in accepted:
+        na.append({"property_id": pid, "reason": "check under construction in this round (not yet accepted by the coordinator: see DESIGN.md section 5 for the planned model and theorems)"})
+        continue
     if not os.path.exists(path):
         na.append({"property_id": pid, "reason": "check not built yet (work in progress; DESIGN.md section 5 has the planned model and theorems)"})
         continue
